@@ -225,7 +225,7 @@ func runHistory(v *View, h *History, hi int) []Event {
 			ev.Cond[k] = b2i(x)
 		}
 		for c, ks := range st.Key {
-			ks = append([]string(nil), ks...)
+			ks = append([]string{}, ks...)
 			sort.Strings(ks)
 			ev.Key[c] = ks
 			ev.Pre[c] = b2i(b.Unseen(c, ks))
